@@ -175,7 +175,16 @@ func runC13(r *core.Run) {
 	changed := 0
 	seq := ""
 	for i := 0; i < n; i++ {
-		a.Now = a.Now.Add(time.Duration(1+r.Intn(100000, "advance-s")) * time.Second)
+		// document timestamps: mostly advancing, sometimes pinned to the previous run's or backdated
+		switch r.Intn(8, "clock") {
+		case 0:
+			r.Probe("pinned-timestamp")
+		case 1:
+			a.Now = a.Now.Add(-time.Duration(1+r.Intn(7200, "backdate-s")) * time.Second)
+			r.Probe("backdated-timestamp")
+		default:
+			a.Now = a.Now.Add(time.Duration(1+r.Intn(100000, "advance-s")) * time.Second)
+		}
 		q := Req{Image: pool[r.Intn(len(pool), "image")], Candidate: cands[r.Intn(len(cands), "candidate")], OutDir: "out",
 			Overwrite: r.Bool("overwrite"), SNP: true, LaunchVmsas: 2, ClSpec: uint64(i + 1), Timestamp: a.Now, Retries: 0,
 			ViaCLI: backend == 1 && r.Bool("via-cli")}
@@ -208,11 +217,11 @@ func runC13(r *core.Run) {
 			if found != base {
 				r.Fail("latest-run-not-indexed", "wrong-path", "%s: the image's digest maps to %q, the run wrote %q", where, found, base)
 			}
-			// the file holds this run's endorsement (its document timestamp is unique per run)
+			// the file holds this run's endorsement (its changelist number is unique per run)
 			le := &epb.VMLaunchEndorsement{}
 			g := &epb.VMGoldenMeasurement{}
 			if fb, ok := after[path.Join(outPath, base)]; !ok || proto.Unmarshal(fb, le) != nil || proto.Unmarshal(le.GetSerializedUefiGolden(), g) != nil ||
-				!timeproto.From(g.GetTimestamp()).Equal(q.Timestamp.Truncate(time.Nanosecond)) || !bytes.Equal(g.GetDigest(), q.Image.Digest[:]) {
+				g.GetClSpec() != q.ClSpec || !timeproto.From(g.GetTimestamp()).Equal(q.Timestamp.Truncate(time.Nanosecond)) || !bytes.Equal(g.GetDigest(), q.Image.Digest[:]) {
 				r.Fail("latest-run-not-indexed", "stale-file", "%s: %q does not hold the endorsement this run produced", where, base)
 			}
 		} else if err == nil {
